@@ -14,7 +14,7 @@ import (
 func init() {
 	fw.Register(&fw.Check{
 		ID: "C12", Level: "model_checking",
-		Rule: "ALL inheritance graphs over 2..3 (quick) / 2..4 (thorough) object types: every assignment of an ordered list of 0..2 distinct bases to each type (chains, several bases, shared bases, diamonds, cycles) x own-property pattern per type {one private property, private + a name shared by all, none, private + a property keyed by a type reference} x ALL declaration orders x host of an additional inheriting schema {none, request, response, response headers, query, nested object property of a type}; oracle, in every accepted document: each type's property list = the reference inheritance (bases in naming order, transitively, each property marked with the named base it came through, each key once, own properties last) and base types stay as declared; plus negative cases (override of an inherited property, non-object base, undefined base) rejected; non-trivial = accepted document with at least one allOf; distinct = distinct documents",
+		Rule:   "ALL inheritance graphs over 2..3 (quick) / 2..4 (thorough) object types: every assignment of an ordered list of 0..2 distinct bases to each type (chains, several bases, shared bases, diamonds, cycles) x own-property pattern per type {one private property, private + a name shared by all, none, private + a property keyed by a type reference} x ALL declaration orders x host of an additional inheriting schema {none, request, response, response headers, query, nested object property of a type}; oracle, in every accepted document: each type's property list = the reference inheritance (bases in naming order, transitively, each property marked with the named base it came through, each key once, own properties last) and base types stay as declared; plus negative cases (override of an inherited property, non-object base, undefined base) rejected; non-trivial = accepted document with at least one allOf; distinct = distinct documents",
 		Assume: []string{"documents the schema library rejects (e.g. the same key reachable through two bases, cycles) are counted, not judged: the property speaks about accepted documents"},
 		Run:    runC12, QuickCap: 8 * time.Minute, ThoroughCap: 40 * time.Minute,
 	})
@@ -136,8 +136,8 @@ func runC12(c *fw.Ctx) {
 			baseOpts = append(baseOpts, opts)
 		}
 		ownPatterns := 4
-		idx := make([]int, n)  // base option per type
-		pat := make([]int, n)  // own pattern per type
+		idx := make([]int, n) // base option per type
+		pat := make([]int, n) // own pattern per type
 		var recB func(i int)
 		var recP func(i int)
 		emit := func() {
@@ -439,7 +439,9 @@ func c12Hosts() []c12host {
 		}
 		return nil
 	}
-	holder := func(hb string) *doc.Node { return doc.N("TYPE", "@holder").WithBody("{\n  \"in\": " + indent(hb) + "\n}") }
+	holder := func(hb string) *doc.Node {
+		return doc.N("TYPE", "@holder").WithBody("{\n  \"in\": " + indent(hb) + "\n}")
+	}
 	heir := func() *doc.Node { return doc.N("TYPE", "@heir").WithBody("{ // {allOf: \"@holder\"}\n  \"z\": 1\n}") }
 	// allOf below a plain intermediate object (depth 2) and inside an array element
 	deep := func(hb string) *doc.Node {
